@@ -487,6 +487,53 @@ def replay_plugin(ctx, binary, test, cases, tag):
     return r
 
 
+def make_pairs(ctx, cases, n):
+    """Pairs of exported single-stream cases with the same action configuration + a seeded interleaving, for the replay on
+    two plugin instances that share one config object."""
+    rng = ctx.rng
+    groups = collections.defaultdict(list)
+    for c in cases:
+        if c["pre"] == "none" and c["seq"]:
+            groups[(c["nt"], tuple(c["neg"]), c["M"])].append(c)
+    keys = sorted(groups)
+    # runs and several templates are what a shared template index / buffer would mix up
+    def interesting(c):
+        return any(not isinstance(x, int) for x in c["exp"]) or c["held"]
+    pairs = []
+    for _ in range(n):
+        g = groups[rng.choice(keys)]
+        a, b = rng.choice(g), rng.choice(g)
+        for _ in range(4):
+            if interesting(a) and interesting(b) and (a["nt"] == 1 or set(a["seq"]) & {"S1"} and set(b["seq"]) & {"S2"}):
+                break
+            a, b = rng.choice(g), rng.choice(g)
+        order = [0] * len(a["seq"]) + [1] * len(b["seq"])
+        rng.shuffle(order)
+        pairs.append({"a": a, "b": b, "order": order})
+    return pairs
+
+
+def replay_pairs(ctx, binary, test, pairs, tag):
+    path = os.path.join(ctx.scratch, "c15_%s_pairs.ndjson" % tag)
+    out = os.path.join(ctx.scratch, "c15_%s_pairs_out.json" % tag)
+    with open(path, "w") as f:
+        for c in pairs:
+            f.write(json.dumps(c) + "\n")
+    rc, txt = ctx.run_bin(binary, test, env={"VERIF_CASES": path, "VERIF_OUT": out}, timeout=900)
+    if rc != 0 or not os.path.exists(out):
+        raise vlib.Infra("C15 %s harness failed rc=%s:\n%s" % (tag, rc, txt[-3000:]))
+    r = json.load(open(out))
+    if r["executed"] != len(pairs):
+        raise vlib.Infra("%s harness executed %d of %d pairs" % (tag, r["executed"], len(pairs)))
+    recs = []
+    for m in r["mismatches"] or []:
+        recs.append({"level": "plugin", "kind": m["kind"], "plugin": m["plugin"], "shared_config": True, "as_modelled": False,
+                     "stream": m["stream"], "pair": m["pair"], "got": m["got"], "panic": m.get("panic", "")[:400]})
+    if r["mismatch_count"] > len(recs):
+        vlib.log("note: %d further mismatches of the %s replay not listed" % (r["mismatch_count"] - len(recs), tag))
+    return r["executed"], recs
+
+
 def run(ctx):
     quick = ctx.tier == "quick"
     # harness builds in the background while TLC runs
@@ -519,6 +566,14 @@ def run(ctx):
         rm = ctx.tlc("Join", cfgname, timeout=300, deadlock=False, name="Join/mutant %s off" % mech)
         if rm.violated != "StatementOK":
             raise vlib.Infra("spec mutant %s=FALSE was not rejected by StatementOK: %s" % (mech, rm.violated))
+    # the action's state is per plugin instance (= per processor): product of two single-stream machines, and the mutant
+    # "current template index shared by the instances" must be rejected
+    ctx.tlc_expect_ok("JoinInstances", "JoinInstances_quick.cfg" if quick else "JoinInstances_thorough.cfg", timeout=900,
+                      deadlock=False)
+    rmi = ctx.tlc("JoinInstances", "JoinInstances_mut.cfg", timeout=300, deadlock=False,
+                  name="JoinInstances/mutant M_TemplateStatePerInstance off")
+    if rmi.violated != "StreamsIndependent":
+        raise vlib.Infra("spec mutant M_TemplateStatePerInstance=FALSE was not rejected: %s" % rmi.violated)
     rk = ctx.tlc_expect_ok("K8sMultiline", "K8sMultiline_quick.cfg" if quick else "K8sMultiline_thorough.cfg",
                            timeout=1500, deadlock=False, overrides=ksw)
     ctx.tlc_expect_ok("K8sMultiline", "K8sMultiline_ideal.cfg", timeout=600, deadlock=False,
@@ -561,6 +616,14 @@ def run(ctx):
                      "backslash_n_partial": m.get("backslash_n_partial", False), "case": m["case"], "got": m["got"],
                      "panic": m.get("panic", "")[:400]})
     ctx.extra["k8s_mismatch_classes"] = r3["mismatch_counts"]
+    # two instances from ONE shared config object (as the pipeline starts its processors), two interleaved streams
+    npairs = 30000 if quick else 300000
+    n4, recs4 = replay_pairs(ctx, bins["plugin/action/join"], "^TestVerifC15JoinShared$",
+                             make_pairs(ctx, j1, npairs // 3), "join_shared")
+    n5, recs5 = replay_pairs(ctx, bins["plugin/action/join_template"], "^TestVerifC15JoinTemplateShared$",
+                             make_pairs(ctx, jt, npairs), "jt_shared")
+    recs += recs4 + recs5
+    ctx.extra["shared_config_pairs"] = {"join": n4, "join_template": n5}
 
     # ---- 3. pipeline-level runs
     table = {case_key(c): c for c in jcases if c["nt"] == 1}
@@ -576,7 +639,7 @@ def run(ctx):
     ctx.classify(recs)
 
     # ---- evidence
-    ctx.evaluations = r1["executed"] + r2["executed"] + r3["executed"] + nstreams
+    ctx.evaluations = r1["executed"] + r2["executed"] + r3["executed"] + nstreams + n4 + n5
     ctx.traces_validated = ctx.evaluations
     ctx.nontrivial = r1["nontrivial"] + r2["nontrivial"] + r3["nontrivial"] + pstats["joined"]
     ctx.exhaustive = True
